@@ -83,6 +83,34 @@ def walk_local(fn: ast.AST):
         stack.extend(ast.iter_child_nodes(n))
 
 
+class _Canon(ast.NodeTransformer):
+    """Syntactic canonicalisation applied to every parsed module, so that the analyses do not depend on spelling:
+    `x = x <op> e` becomes `x <op>= e` (names and attribute/subscript targets alike); `pass` is dropped from blocks that
+    contain other statements.  Positions are preserved."""
+
+    def visit_Assign(self, n: ast.Assign):
+        self.generic_visit(n)
+        if len(n.targets) == 1 and isinstance(n.value, ast.BinOp) and isinstance(n.targets[0], (ast.Name, ast.Attribute, ast.Subscript)) \
+                and isinstance(n.value.op, (ast.Add, ast.Sub, ast.Mult)):
+            try:
+                same = ast.dump(n.targets[0]).replace("Store()", "Load()") == ast.dump(n.value.left)
+            except Exception:
+                same = False
+            if same:
+                return ast.copy_location(ast.AugAssign(target=n.targets[0], op=n.value.op, value=n.value.right), n)
+        return n
+
+    def generic_visit(self, node):
+        super().generic_visit(node)
+        for fld in ("body", "orelse", "finalbody"):
+            b = getattr(node, fld, None)
+            if isinstance(b, list) and len(b) > 1 and any(isinstance(x, ast.Pass) for x in b):
+                nb = [x for x in b if not isinstance(x, ast.Pass)]
+                if nb:
+                    setattr(node, fld, nb)
+        return node
+
+
 def set_parents(tree: ast.AST) -> None:
     for n in ast.walk(tree):
         for c in ast.iter_child_nodes(n):
@@ -106,6 +134,8 @@ class Program:
                 tree = ast.parse(src, filename=path)
             except SyntaxError as e:
                 raise AnalysisError(f"{path}: does not parse: {e}")
+            tree = _Canon().visit(tree)
+            ast.fix_missing_locations(tree)
             set_parents(tree)
             self.modules[path] = ModuleInfo(path, src, tree)
         self._index()
